@@ -1,7 +1,10 @@
 ---- MODULE MC_Stubs ----
 (* Model instances for C20: a family of schema descriptors (every built-in field class, typed
    lists / dicts, nested schemas, config types, virtual fields, instance methods over a grid of
-   signature shapes x annotation patterns x return annotations) x the GenStub machine.
+   signature shapes x annotation patterns x return annotations; custom fields whose storage type
+   is, and methods annotated with, a class whose qualified name differs from its name - a class
+   defined in a function body, a class nested in a class - alone and inside typing generics,
+   PEP 585 generics and PEP 604 unions) x the GenStub machine.
    Tier = "quick" | "thorough" selects the size of the family. *)
 EXTENDS CincoStubs, SequencesExt, Json
 
@@ -81,6 +84,31 @@ SmallSigs == {S0, S1,
                     P("k", "kwonly", FALSE, "noann"), P("kw", "varkw", FALSE, "class")>>, "none"),
               Sig(<<P("cfg", "pos", FALSE, "noann"), P("args", "vararg", FALSE, "noann")>>, "noret")}
 
+\* classes whose qualified name differs from their name: every kind as the annotation of a
+\* positional parameter, of a keyword-only parameter with a default and as return annotation ...
+Cfg0 == P("cfg", "pos", FALSE, "noann")
+QualSigs == {Sig(<<Cfg0, P("x", "pos", FALSE, k)>>, "noret") : k \in QualKinds}
+            \cup {Sig(<<Cfg0>>, k) : k \in QualKinds}
+            \cup (IF Big THEN {Sig(<<Cfg0, P("k", "kwonly", TRUE, k)>>, k) : k \in QualKinds}
+                              \cup {Sig(<<P("cfg", "posonly", FALSE, k), P("p", "posonly", FALSE, k),
+                                          P("args", "vararg", FALSE, k), P("kw", "varkw", FALSE, k)>>, "int") :
+                                        k \in QualKinds}
+                   ELSE {})
+\* ... and (thorough) all over every signature shape
+QualGridSigs == IF ~Big THEN {}
+                ELSE {s \in {Sig([i \in DOMAIN sh |-> [sh[i] EXCEPT !.a = IF i = 1 THEN "noann" ELSE k]], r) :
+                                  sh \in Shapes, k \in {"optlocal", "u604nested"},
+                                  r \in {"noret", "pep585local"}} : SigWF(s)}
+\* custom fields: the storage type itself, and as the item / key / value of a typed list / dict
+\* (ListField and DictField build typing.List[...] / typing.Dict[...] from it)
+Customs == {CustomF(st) : st \in StorageKinds}
+CustomContainers ==
+    {ListF(CustomF(st)) : st \in {"local", "nested", "class"} \cup (IF Big THEN {"optlocal", "u604nested"} ELSE {})}
+    \cup {DictF(Sc("string"), CustomF(st)) : st \in {"local", "nested"}}
+    \cup (IF Big THEN {DictF(CustomF("nested"), CustomF("local")), DictF(CustomF("local"), NoF),
+                       ListF(ListF(CustomF("local"))), ListF(DictF(NoF, CustomF("nested")))}
+          ELSE {})
+
 ---------------------------------------------------------------------------
 (* schemas *)
 Root(fs)    == [kind |-> "schema", fields |-> fs, dynamic |-> FALSE]
@@ -103,7 +131,18 @@ FamE == {DynRoot(fs) : fs \in {<<>>,
                                << <<"a", AppModeF(TRUE)>>, <<"b", ListF(ItemType)>>, <<"sub", SchemaF(<< <<"x", Sc("int")>> >>)>> >>}
                     \cup (IF Big THEN {<< <<"a", f>>, <<"vs", VSetterF>> >> : f \in FieldVariants} ELSE {})}
 
-Family == FamA \cup FamB \cup FamC \cup FamD \cup FamE
+\* classes whose qualified name differs from their name
+FamQ == {Root(<< <<"a", f>> >>) : f \in Customs \cup CustomContainers}
+        \cup {Root(<< <<"a", Sc("string")>>, <<"m", MethodF(s)>> >>) : s \in QualSigs \cup QualGridSigs}
+        \cup {Root(<< <<"a", CustomF("local")>>, <<"v", VirtualF>>, <<"m", MethodF(S1)>>,
+                      <<"b", ListF(CustomF("nested"))>>, <<"c", CustomF("listnested")>> >>),
+              DynRoot(<< <<"a", CustomF("nested")>>,
+                         <<"m", MethodF(Sig(<<Cfg0, P("x", "pos", FALSE, "local")>>, "nested"))>> >>)}
+        \cup (IF Big THEN {Root(<< <<"a", f>>, <<"m", MethodF(S1)>>, <<"b", g>> >>) :
+                               f \in Customs, g \in {Sc("int"), ListF(CustomF("nested"))}}
+              ELSE {})
+
+Family == FamA \cup FamB \cup FamC \cup FamD \cup FamE \cup FamQ
 FamilySeq == SetToSeq(Family)
 
 ASSUME \A s \in Family : SchemaWF(s)
